@@ -1,0 +1,194 @@
+//go:build verif
+// +build verif
+
+package scipipe
+
+// Verification hooks, compiled in only with the "verif" build tag. They are
+// driven by environment variables, so that a binary built with the tag but run
+// without the variables behaves like the plain library:
+//
+//	VERIF_EVLOG=<file>                 append one JSON line per hook hit
+//	VERIF_CRASH=<point>|<who-substr>|<n>  SIGKILL the process group at the n-th
+//	                                   hit of <point> whose process name or temp
+//	                                   dir contains <who-substr>
+//	VERIF_SCHED=<seed>,<permille>,<max_us>  at yield points, pseudo-randomly
+//	                                   yield or sleep up to max_us microseconds
+
+import (
+	"fmt"
+	"os"
+	"runtime"
+	"strconv"
+	"strings"
+	"sync"
+	"syscall"
+	"time"
+	"unsafe"
+)
+
+var verifMon struct {
+	mu       sync.Mutex
+	inited   bool
+	seq      int64
+	evlog    *os.File
+	held     int
+	crashPt  string
+	crashWho string
+	crashN   int
+	crashCnt int
+	schedOn  bool
+	seed     uint64
+	permille uint64
+	maxUs    uint64
+	counters map[string]uint64
+}
+
+var verifYieldPoints = map[string]bool{
+	"slots.before_lock":    true,
+	"slots.deposit":        true,
+	"slots.release":        true,
+	"proc.inputs_received": true,
+	"proc.task_creating":   true,
+	"proc.select":          true,
+	"proc.out_send":        true,
+	"inport.recv":          true,
+	"port.send":            true,
+	"port.close":           true,
+	"task.done":            true,
+	"task.begin":           true,
+}
+
+func verifInit() {
+	m := &verifMon
+	m.inited = true
+	m.counters = map[string]uint64{}
+	if p := os.Getenv("VERIF_EVLOG"); p != "" {
+		f, err := os.OpenFile(p, os.O_APPEND|os.O_CREATE|os.O_WRONLY, 0644)
+		if err == nil {
+			m.evlog = f
+		}
+	}
+	if c := os.Getenv("VERIF_CRASH"); c != "" {
+		parts := strings.Split(c, "|")
+		if len(parts) == 3 {
+			m.crashPt = parts[0]
+			m.crashWho = parts[1]
+			m.crashN, _ = strconv.Atoi(parts[2])
+		}
+	}
+	if s := os.Getenv("VERIF_SCHED"); s != "" {
+		parts := strings.Split(s, ",")
+		if len(parts) == 3 {
+			m.seed, _ = strconv.ParseUint(parts[0], 10, 64)
+			m.permille, _ = strconv.ParseUint(parts[1], 10, 64)
+			m.maxUs, _ = strconv.ParseUint(parts[2], 10, 64)
+			m.schedOn = m.permille > 0
+		}
+	}
+}
+
+func verifMonoNS() int64 {
+	var ts syscall.Timespec
+	syscall.Syscall(syscall.SYS_CLOCK_GETTIME, 1 /* CLOCK_MONOTONIC */, uintptr(unsafe.Pointer(&ts)), 0)
+	return ts.Sec*1e9 + ts.Nsec
+}
+
+func verifGoID() int64 {
+	var buf [64]byte
+	n := runtime.Stack(buf[:], false)
+	// "goroutine 123 [running]:"
+	f := strings.Fields(string(buf[:n]))
+	if len(f) >= 2 {
+		id, _ := strconv.ParseInt(f[1], 10, 64)
+		return id
+	}
+	return -1
+}
+
+func verifMix(x uint64) uint64 {
+	x ^= x >> 33
+	x *= 0xff51afd7ed558ccd
+	x ^= x >> 33
+	x *= 0xc4ceb9fe1a85ec53
+	x ^= x >> 33
+	return x
+}
+
+func verifHashStr(s string) uint64 {
+	var h uint64 = 14695981039346656037
+	for i := 0; i < len(s); i++ {
+		h ^= uint64(s[i])
+		h *= 1099511628211
+	}
+	return h
+}
+
+func verifJSONStr(s string) string {
+	return strconv.Quote(s)
+}
+
+func verifHit(point string, who string, tmp string, n int) {
+	m := &verifMon
+	gid := verifGoID()
+	m.mu.Lock()
+	if !m.inited {
+		verifInit()
+	}
+	m.seq++
+	switch point {
+	case "task.slots_acquired":
+		m.held += n
+	case "task.slots_releasing":
+		m.held -= n
+	}
+	if m.evlog != nil {
+		line := fmt.Sprintf("{\"seq\":%d,\"t\":%d,\"g\":%d,\"pt\":%s,\"who\":%s,\"tmp\":%s,\"n\":%d,\"held\":%d}\n",
+			m.seq, verifMonoNS(), gid, verifJSONStr(point), verifJSONStr(who), verifJSONStr(tmp), n, m.held)
+		m.evlog.WriteString(line)
+	}
+	if m.crashPt != "" && m.crashPt == point && (strings.Contains(who, m.crashWho) || strings.Contains(tmp, m.crashWho)) {
+		m.crashCnt++
+		if m.crashCnt == m.crashN {
+			// Kill the whole process group (workflow and running commands)
+			// at exactly this program location.
+			syscall.Kill(-syscall.Getpgrp(), syscall.SIGKILL)
+			// Not reached in practice; make sure nothing continues.
+			for {
+				time.Sleep(time.Hour)
+			}
+		}
+	}
+	var action, us uint64
+	if m.schedOn && verifYieldPoints[point] {
+		key := point + "\x00" + who
+		c := m.counters[key]
+		m.counters[key] = c + 1
+		h := verifMix(m.seed ^ verifHashStr(key) ^ verifMix(c+0x9e3779b97f4a7c15))
+		if h%1000 < m.permille {
+			action = 1 + (h>>20)%2
+			if m.maxUs > 0 {
+				us = (h >> 32) % (m.maxUs + 1)
+			}
+		}
+	}
+	m.mu.Unlock()
+	switch action {
+	case 1:
+		runtime.Gosched()
+	case 2:
+		time.Sleep(time.Duration(us) * time.Microsecond)
+	}
+}
+
+func verifPoint(point string, who string, n int) {
+	if strings.HasPrefix(who, tempDirPrefix) {
+		verifHit(point, "", who, n)
+		return
+	}
+	verifHit(point, who, "", n)
+}
+
+func verifTask(point string, t *Task, n int) {
+	who := t.Name
+	verifHit(point, who, t.TempDir(), n)
+}
